@@ -124,7 +124,33 @@ EDITS = [
      [("__errprof.register('empty', EMPTY, 'ignore', _zz_test_empty,", "__errprof.register('empty', EMPTY, 'ign' + 'ore', _zz_test_empty,")]),
 ]
 
+# edits of biom/_filter.pyx (translated through tools/decython.py)
+KERNEL_EDITS = [
+    ('k-le', 'semantic', 'rebuild loop: j <= indices[start] instead of j <',
+     [('if start >= end or j < indices[start]:', 'if start >= end or j <= indices[start]:')]),
+    ('k-no-advance', 'semantic', 'rebuild loop: start is not advanced',
+     [('                row_or_col[j] = data[start]\n                start += 1', '                row_or_col[j] = data[start]')]),
+    ('k-nnz-first', 'semantic', '_remove_rows_csr: nnz is added up after both indptr writes',
+     [('            indptr[row-offset_rows] = nnz\n            nnz += end - start\n            indptr[row-offset_rows + 1] = nnz',
+       '            indptr[row-offset_rows] = nnz\n            indptr[row-offset_rows + 1] = nnz\n            nnz += end - start')]),
+    ('k-copy-src', 'semantic', '_remove_rows_csr: indices copied from the shifted position',
+     [('indices[j-offset] = indices[j]', 'indices[j-offset] = indices[j-offset]')]),
+    ('k-no-offset', 'semantic', '_remove_rows_csr: dropped rows do not advance offset',
+     [('            offset += end - start\n', '')]),
+    ('k-rename', 'preserving', '_remove_rows_csr: local nnz renamed', [('nnz', 'kept_nnz')]),
+    ('k-swap-copy', 'preserving', '_remove_rows_csr: the two copy statements swapped',
+     [('                data[j-offset] = data[j]\n                indices[j-offset] = indices[j]',
+       '                indices[j-offset] = indices[j]\n                data[j-offset] = data[j]')]),
+    ('k-while', 'reject', '_remove_rows_csr: copy loop written as while',
+     [('            for j in range(start, end):', '            j = start\n            while j < end:')]),
+    ('k-alias', 'reject', '_remove_rows_csr: arr.indices is no longer reassigned (the alias would show)',
+     [('    arr.indices = indices[:nnz]\n', '')]),
+    ('k-numpy', 'reject', '_remove_rows_csr: a numpy call',
+     [('    offset_rows = 0\n', '    offset_rows = int(np.sum(booleans == 0)) * 0\n')]),
+]
+
 COQ_FILES = ['Gen/ErrGen.v', 'Model/Err.v', 'Proofs/ErrProofs.v', 'Props/C20.v']
+KERNEL_COQ_FILES = ['Gen/FilterGen.v', 'Model/Filter.v', 'Proofs/FilterProofs.v', 'Proofs/FilterKernelProofs.v']
 
 
 def sh(cmd, cwd=None, env=None, timeout=900):
@@ -136,7 +162,7 @@ def apply(src, reps, name):
     for old, new in reps:
         if old not in src:
             raise SystemExit('selftest: edit %s no longer applies to err.py (pattern not found)' % name)
-        src = src.replace(old, new) if name == 'rename-local' else src.replace(old, new, 1)
+        src = src.replace(old, new) if name in ('rename-local', 'k-rename') else src.replace(old, new, 1)
     return src
 
 
@@ -161,14 +187,15 @@ def prepare_coq(d):
     rc, out = sh(['coqc', '-Q', '.', 'BiomV', 'Model/ErrTypes.v'], cwd=d)
     if rc:
         raise SystemExit('selftest: cannot compile ErrTypes.v in the scratch tree (build Base first)\n' + out)
-    for f in COQ_FILES[1:]:
+    shutil.copy(os.path.join(VERIF, 'coq', 'Model', 'Table.vo'), os.path.join(d, 'Model', 'Table.vo'))
+    for f in COQ_FILES[1:] + KERNEL_COQ_FILES[1:]:
         shutil.copy(os.path.join(VERIF, 'coq', f), os.path.join(d, f))
 
 
-def coq_run(d):
+def coq_run(d, files=None):
     """compile the dependent files in order -> (ok, 'file: lemma' of the first failure)"""
-    for f in COQ_FILES:
-        rc, out = sh(['coqc', '-Q', '.', 'BiomV', f], cwd=d, timeout=600)
+    for f in files or COQ_FILES:
+        rc, out = sh(['/bin/sh', '-c', 'ulimit -v 8000000; exec timeout 300 coqc -Q . BiomV ' + f], cwd=d, timeout=600)
         if rc:
             m = re.search(r'File "\./([^"]+)", line (\d+)', out)
             where = '%s: %s' % (m.group(1), enclosing(os.path.join(d, m.group(1)), int(m.group(2)))) if m else f
@@ -214,59 +241,64 @@ def main(argv):
     os.makedirs(os.path.join(SCRATCH, 'repo', 'biom'))
     coqd = os.path.join(SCRATCH, 'coq')
     prepare_coq(coqd)
-    orig = open(os.path.join(REPO, 'biom', 'err.py')).read()
-    src_path = os.path.join(SCRATCH, 'repo', 'biom', 'err.py')
-    tr = [sys.executable, os.path.join(HERE, 'main.py'), '--repo', os.path.join(SCRATCH, 'repo'), '--out', SCRATCH, 'err']
-    # baseline
-    open(src_path, 'w').write(orig)
-    rc, out = sh(tr)
-    gen = os.path.join(coqd, 'Gen', 'ErrGen.v')
-    if rc:
-        raise SystemExit('selftest: the translator refuses the unchanged source\n' + out)
-    base = open(gen).read()
-    if base != open(os.path.join(VERIF, 'coq', 'Gen', 'ErrGen.v')).read():
-        print('selftest: NOTE committed coq/Gen/ErrGen.v differs from what the translator emits now')
-    rc2, out2 = sh(tr)
-    determ = 'unchanged' in out2 and open(gen).read() == base
-    ok, where = coq_run(coqd)
-    rows = [('(unchanged)', '-', 'source as it is', 'accepts', 'deterministic' if determ else 'NOT DETERMINISTIC',
-             'all proofs check' if ok else 'BREAKS ' + where, '')]
-    bad = not ok or not determ
+    rows, details, bad = [], [], False
     vs = prepare_check() if do_check else None
-    details = []
-    for name, group, what, reps in EDITS:
-        if only and name not in only:
+    for target, relsrc, genname, files, edits in (('err', 'err.py', 'ErrGen.v', COQ_FILES, EDITS),
+                                                  ('filter', '_filter.pyx', 'FilterGen.v', KERNEL_COQ_FILES, KERNEL_EDITS)):
+        if only and not any(e[0] in only for e in edits):
             continue
-        text = apply(orig, reps, name)
-        open(src_path, 'w').write(text)
-        os.remove(gen)
+        orig = open(os.path.join(REPO, 'biom', relsrc)).read()
+        src_path = os.path.join(SCRATCH, 'repo', 'biom', relsrc)
+        tr = [sys.executable, os.path.join(HERE, 'main.py'), '--repo', os.path.join(SCRATCH, 'repo'), '--out', SCRATCH, target]
+        open(src_path, 'w').write(orig)
         rc, out = sh(tr)
-        refused = [ln.split('REFUSED', 1)[1].strip() for ln in out.split('\n') if 'REFUSED' in ln]
-        wrote = os.path.exists(gen)
-        verdict = ''
+        gen = os.path.join(coqd, 'Gen', genname)
         if rc:
-            if wrote:
-                bad = True
-            col_t = 'REFUSES' + (' (but wrote a file!)' if wrote else '')
-            col_d, col_p = '-', refused[0].replace('biom/err.py: ', '')[:110] if refused else 'rc=%d' % rc
-            if group != 'reject':
-                bad = True
-            open(gen, 'w').write(base)
-        else:
-            col_t = 'accepts'
-            differs = open(gen).read() != base
-            col_d = 'differs' if differs else 'same text'
-            ok, where = coq_run(coqd)
-            col_p = 'all proofs check' if ok else 'breaks ' + where
-            if group == 'reject' or (group == 'semantic' and (not differs or ok)):
-                bad = True
-            if do_check:
-                verdict, det = check_run(vs[0], vs[1], text)
-                if det:
-                    details.append((name, det))
-        rows.append((name, group, what, col_t, col_d, col_p, verdict))
+            raise SystemExit('selftest: the translator refuses the unchanged source\n' + out)
+        base = open(gen).read()
+        if base != open(os.path.join(VERIF, 'coq', 'Gen', genname)).read():
+            print('selftest: NOTE committed coq/Gen/%s differs from what the translator emits now' % genname)
+        rc2, out2 = sh(tr)
+        determ = 'unchanged' in out2 and open(gen).read() == base
+        ok, where = coq_run(coqd, files)
+        rows.append(('(unchanged %s)' % relsrc, '-', 'source as it is', 'accepts', 'deterministic' if determ else 'NOT DETERMINISTIC',
+                     'all proofs check' if ok else 'BREAKS ' + where, ''))
+        bad = bad or not ok or not determ
+        for name, group, what, reps in edits:
+            if only and name not in only:
+                continue
+            text = apply(orig, reps, name)
+            open(src_path, 'w').write(text)
+            os.remove(gen)
+            rc, out = sh(tr)
+            refused = [ln.split('REFUSED', 1)[1].strip() for ln in out.split('\n') if 'REFUSED' in ln]
+            wrote = os.path.exists(gen)
+            verdict = ''
+            if rc:
+                if wrote:
+                    bad = True
+                col_t = 'REFUSES' + (' (but wrote a file!)' if wrote else '')
+                col_d, col_p = '-', refused[0].replace('biom/%s: ' % relsrc, '')[:110] if refused else 'rc=%d' % rc
+                if group != 'reject':
+                    bad = True
+                open(gen, 'w').write(base)
+            else:
+                col_t = 'accepts'
+                differs = open(gen).read() != base
+                col_d = 'differs' if differs else 'same text'
+                ok, where = coq_run(coqd, files)
+                col_p = 'all proofs check' if ok else 'breaks ' + where
+                if group == 'reject' or (group == 'semantic' and (not differs or ok)):
+                    bad = True
+                if do_check and target == 'err':
+                    verdict, det = check_run(vs[0], vs[1], text)
+                    if det:
+                        details.append((name, det))
+            rows.append((name, group, what, col_t, col_d, col_p, verdict))
+        open(src_path, 'w').write(orig)
+        sh(tr)
     # report
-    hdr = ('edit', 'group', 'what', 'translator', 'ErrGen.v', 'proofs / refusal message', './check C20')
+    hdr = ('edit', 'group', 'what', 'translator', 'generated .v', 'proofs / refusal message', './check C20')
     if md:
         print('| ' + ' | '.join(hdr) + ' |')
         print('|' + '---|' * len(hdr))
